@@ -84,11 +84,11 @@ CHECKS = {
             'Only the listed families and loci are covered; worlds rejected by the constructor are left to C12.',
             'DESIGN.md section 3 C13'),
     'C12': ('fault_enumeration', 'E4',
-            'exhaustive enumeration of document faults: every single deviation (byte level: prefix / deletion / transposition / token substitution; JSON-tree level: delete / replace by 7|14 constants / rename key / duplicate element at EVERY node) of base documents, all short token strings, all list-length combinations, formatting variants; each candidate loaded in the ASan+UBSan build, independent schema verdict from Python jsonschema',
+            'exhaustive enumeration of document faults: every single deviation (byte level: prefix / deletion / transposition / token substitution; JSON-tree level: delete / replace by 7|14 constants / rename key / duplicate element at EVERY node) of base documents, all short token strings, all list-length combinations, formatting variants, and (thorough) all pairs of tree deviations of the smallest base; each candidate loaded in the ASan+UBSan build, independent schema verdict from Python jsonschema',
             'Every candidate document of the stated classes is handed to World::World in the sanitizer build. Allowed outcomes are a built world (then probed with 160 queries) or a std::exception with a '
             'message; a signal, sanitizer report, foreign exception or watchdog expiry is a violation of that candidate. Documents that Python jsonschema finds invalid against the frozen published schema, '
             'and list families with inconsistent lengths, must be rejected; formatting variants (whitespace, comments at every token boundary, key orders) must answer bit-identically to the canonical file.',
-            'Single deviations only (pairs are not enumerated); base documents as listed; the schema verdict is used one way (invalid => reject).',
+            'Single deviations on every base document; in the thorough tier also every pair of {delete, replace by null / -1 / "x" / [] / {}} at two nodes of the smallest base; base documents as listed; the schema verdict is used one way (invalid => reject).',
             'DESIGN.md section 3 C12'),
     'C17': ('exploration', 'E1',
             'bounded exhaustive enumeration (full product of worlds x dim x compositions x grain compositions x grains x convert spherical x separator; every special line of a comment / option-prefix / malformed-row alphabet at three positions) with the real gwb-dat binaries run as subprocesses, cell-by-cell differential oracle against the library',
